@@ -143,6 +143,9 @@ def _baseline_context(key):
     """Fingerprint recorded in baseline_obligations.json for the block contract `key` (None if
     the baseline has none)."""
     global _BASE_CTX
+    import os as _os0
+    if _os0.environ.get('VERIF_RECORD_BASELINE'):
+        return None                     # tools/update_baseline.py: record, do not compare
     if _BASE_CTX is None:
         _BASE_CTX = {}
         try:
